@@ -91,9 +91,13 @@ type Verdict struct {
 	Escaped   bool        // a panic escaped the API call
 	EscOther  string      // escaped panic that is not a harness PanicVal
 	CanVis    bool
-	Bad       bool  // harness-level: op not applicable (unknown scope)
-	Err       error `json:"-"`
-	Msg       string
+	// a zero-valued struct error (u.ZeroErr{}): errors.Is(err, it); it is the
+	// root cause; err is it, unwrapped
+	ZeroErr, ZeroRoot, ZeroIdentical bool
+
+	Bad bool  // harness-level: op not applicable (unknown scope)
+	Err error `json:"-"`
+	Msg string
 }
 
 // Class is the comparison form used by differential oracles.
@@ -231,6 +235,9 @@ func classify(err error) Verdict {
 		v.Identical = true
 		v.User = ue
 		v.IsUser = true
+	}
+	if z := error(u.ZeroErr{}); errors.Is(err, z) {
+		v.ZeroErr, v.ZeroRoot, v.ZeroIdentical = true, rc == z, err == z
 	}
 	v.CanVis = dig.CanVisualizeError(err)
 	return v
